@@ -545,6 +545,8 @@ impl OutQuery {
     ) -> Result<dnspkt::DNSPkt, Error> {
         use rand::TryRng as _;
         let id = rand::rngs::SysRng.try_next_u32().unwrap() as u16;
+        #[cfg(erbium_verif)]
+        let id = verif::override_id(id);
         let oq = create_outquery(id, &msg.in_query);
 
         let out_reply;
@@ -606,5 +608,19 @@ impl OutQuery {
             .dec();
         increment_result(&addr.to_string(), &ret);
         ret.map_err(super::Error::OutReply)
+    }
+}
+
+/// Verification hook: let a test fix the (otherwise random) 16-bit id of out queries.
+#[cfg(erbium_verif)]
+pub mod verif {
+    /// -1: ids are random (default); 0..=65535: every out query uses this id.
+    pub static FORCE_ID: std::sync::atomic::AtomicI32 = std::sync::atomic::AtomicI32::new(-1);
+
+    pub fn override_id(id: u16) -> u16 {
+        match FORCE_ID.load(std::sync::atomic::Ordering::SeqCst) {
+            -1 => id,
+            forced => forced as u16,
+        }
     }
 }
